@@ -42,6 +42,10 @@ def run (args : List String) : String :=
     match n.toInt? with
     | some n => match fromGo n with | some a => s!"ok {a}" | none => "err"
     | none => "bad-op"
+  | ["after", n, _] =>   -- translating a sql level after some ASE level was translated back: no history in a function
+    match n.toInt? with
+    | some n => match fromGo n with | some a => s!"ok {a}" | none => "err"
+    | none => "bad-op"
   | "togo" :: n :: _ =>
     match n.toInt? with
     | some n => joinSep "," ((toGo n).map toString)
